@@ -217,13 +217,18 @@ def entry_cases(tier):
             for port in (8899, 502):
                 yield dict(entry='connect-discover', port=port, T=T, R=R, mode=mode)
                 yield dict(entry='discover', port=port, T=T, R=R, mode=mode)
+                if mode == 'first':
+                    # the identification answer names another family (each has its own branch in discover())
+                    for tag in ('DTU', 'DSN', 'ESU', 'EMU', 'BPU', 'EHU', 'XYZ'):
+                        yield dict(entry='connect-discover', port=port, T=T, R=R, mode=mode, serial_tag=tag)
+                        yield dict(entry='discover', port=port, T=T, R=R, mode=mode, serial_tag=tag)
     for mode in ('silent',):
         yield dict(entry='search', T=1, R=0, mode=mode, port=48899)
 
 
 def run_entry(case):
     world.reset()
-    peer = EntryPeer(case['T'], case['mode'])
+    peer = EntryPeer(case['T'], case['mode'], **({'serial': ('9010K' + case['serial_tag'] + '000W0000').encode()} if case.get('serial_tag') else {}))
     loop = KLoop(peer)
     return _entry_call(case, peer, loop)
 
@@ -369,7 +374,8 @@ def run(tier, seed, rep):
         if len(bsamples) < 3 and case['entry'] in ('discover', 'search'):
             bsamples.append(info)
         for clause, cause in vio:
-            cell = case['entry'] + ('/tcp' if case['port'] == 502 else '/udp') + '/' + case['mode']
+            cell = case['entry'] + ('/tcp' if case['port'] == 502 else '/udp') + '/' + case['mode'] + \
+                (f"/identified-as:{case['serial_tag']}" if case.get('serial_tag') else '')
             rep.add(f'{clause}/{cell}', clause, dict(part='B', case=case), dict(cause=cause, **info))
     seqs = list(seq_cases(tier))
     nseq = 0
